@@ -4,6 +4,7 @@ package c03
 import (
 	"bytes"
 	"encoding/xml"
+	"errors"
 	"fmt"
 	"io"
 	"regexp"
@@ -209,7 +210,7 @@ func session(c Case, selfClosing, noHeader bool) (post []byte, msgs []sent, reqs
 	}
 
 	srv := &sim.NCServer{
-		Hello:   sim.HelloSpec{Caps: caps, SessionID: "1", Layout: "line"}.Render(),
+		Hello:   sim.HelloSpec{Caps: append(append([]string{}, caps...), sim.StdCaps...), SessionID: "1", Layout: "line"}.Render(),
 		Version: c.Version,
 	}
 	srv.OnRequest = func(r sim.NCRequest) []sim.NCAction {
@@ -253,6 +254,8 @@ func session(c Case, selfClosing, noHeader bool) (post []byte, msgs []sent, reqs
 
 	for i, op := range c.Ops {
 		var r *response.NetconfResponse
+
+		wireBefore := len(srv.PostHello())
 
 		var oo []util.Option
 		if op.Filter != "" && op.Kind != "rpc" {
@@ -306,6 +309,13 @@ func session(c Case, selfClosing, noHeader bool) (post []byte, msgs []sent, reqs
 			r, err = d.Discard()
 		case "rpc":
 			r, err = d.RPC(opoptions.WithFilter(op.Filter))
+		}
+
+		if err != nil && len(srv.Requests) == len(msgs) && len(srv.PostHello()) == wireBefore {
+			// refused by the client before a byte of it was transmitted (a library may well check
+			// an operation against the server's capabilities or RFC 6241 first): this property is
+			// about what *is* transmitted
+			return nil, nil, nil, fmt.Errorf("%w: op %d (%s): %v", errRefusedLocally, i, op.Kind, err)
 		}
 
 		if err != nil {
@@ -564,7 +574,10 @@ func checkContent(op Op, lastID *int, input []byte, verbatim bool) error {
 			return err
 		}
 	case "commit":
-		if (o.child("confirmed") != nil) != op.Confirmed {
+		// (a confirm-timeout or a persist token implies a confirmed commit, RFC 6241 8.4.5.1: a
+		// library may spell that out)
+		implied := !op.Confirmed && (op.Timeout > 0 || op.Persist != "")
+		if (o.child("confirmed") != nil) != op.Confirmed && !(implied && o.child("confirmed") != nil) {
 			return fmt.Errorf("confirmed element present=%v, want %v", o.child("confirmed") != nil, op.Confirmed)
 		}
 
@@ -595,8 +608,14 @@ func checkContent(op Op, lastID *int, input []byte, verbatim bool) error {
 
 var simpleEmpty = regexp.MustCompile(`<([A-Za-z_][A-Za-z0-9_-]*)>\s*</([A-Za-z_][A-Za-z0-9_-]*)>`)
 
+var errRefusedLocally = errors.New("refused before anything was transmitted")
+
 func run(c Case) ev.Verdict {
 	post, msgs, reqs, err := session(c, c.SelfClosing, c.NoHeader)
+	if errors.Is(err, errRefusedLocally) {
+		return ev.Verdict{OK: true, Infeasible: true, Classes: []string{"operation-refused-locally"}, Note: err.Error()}
+	}
+
 	if err != nil {
 		return ev.Fail("session: %v", err)
 	}
